@@ -4,6 +4,7 @@ worktree to use, the delivery layout, and one-line summaries of the changes alre
 change goes for another clause). Nothing about the checks themselves is handed out."""
 import json, glob, os, re, sys
 rnd, out = sys.argv[1], sys.argv[2]
+hint = sys.argv[3] if len(sys.argv) > 3 else ""
 os.makedirs(out, exist_ok=True)
 for l in open("/verif/properties.jsonl"):
     p = json.loads(l); pid = p["id"]
@@ -34,6 +35,7 @@ Your task: produce TWO different, realistic changes to the repository (each the 
  3. needs something SPECIFIC to manifest: a multi-step sequence of operations, an unusual or boundary input, a particular committee size / configuration, a particular interleaving, crash point or timing, or two cooperating sites that each look fine alone. NOT something ordinary use exposes at once, and not a change that breaks every call of a method.
 For each change write a demonstration: a Go test (function name must start with TestSeeded, normally in package tests, file tests/seeded_demo_test.go; another package is fine if you name the path in meta.json as demo_location) that FAILS with the change applied and PASSES on the unchanged tree. Look at the existing tests in tests/ for how contracts are deployed and invoked with neotest.
 
+{hint}
 Changes already collected for this property (do NOT repeat these or trivial variants; go for another clause, method, code path, boundary or configuration):
 {chr(10).join(have) if have else '- none'}
 
